@@ -108,7 +108,7 @@ func runC14(c *Ctx) {
 	c.Rule("R14.1", "E3/E4", "AddClient announces the newcomer and the existing members to each other with the right identities", 7)
 	c.Rule("R14.2", "E3/E4", "DelClient removes only the registered client and announces the departure to the leaver and every remaining member once", 4)
 	c.Rule("R14.3", "E3/E4", "permission/data changes are broadcast to all members about the client itself; user events are filtered on the group", 4)
-	c.Rule("R14.4", "E3", "every admitted web client is recorded or removed; the client loop always leaves the group", 2)
+	c.Rule("R14.4", "E3", "every admitted web client is recorded or removed; the client loop always leaves the group", 3)
 	ac := p.Func("group", "", "AddClient")
 	dc := p.Func("group", "", "DelClient")
 	if ac == nil || dc == nil {
@@ -627,5 +627,6 @@ func (e *c14env) pairing() {
 			}
 		}
 		c.Check(bad == 0 && n > 0, "R14.4", "leaveGroup removes the member", lg.Pos(), "every exit of leaveGroup either saw c.group == nil or called group.DelClient(c)", "leaveGroup can return without removing the client from its group")
+		joinRecordedRule(c, "R14.4")
 	}
 }
